@@ -2,6 +2,8 @@ PROP = {
     "regen_files": ["GenGuards.v", "GenSigs.v"],
     "num": 11,
     "runs": [{"tag": "c11", "bin": "c11"},
+             # optimised build of the same cases: no debug assertions, no overflow checks, inlined unsafe paths
+             {"tag": "c11rel", "bin": "c11", "profile": "release", "tiers": ["thorough"]},
              # the reference forms called with method syntax from a separately compiled caller that is generic
              # over the lengths and states only the traits' own bounds (method probing must pick the reference impl)
              {"tag": "c11p", "bin": "c11p", "no_default_features": True},
